@@ -10,6 +10,11 @@ their character codes (`_` = empty string); a separator as its character code.
                                         → W:<hex text>|werr:<kind>   R:ok <rows>|err:<kind>
                                           with readAll = 1:  R:ok <rows> A:<names>|<values> (or R:err:<kind>)
                                           with readAll = 2:  written through the front end TrackWriter.writeToCsv
+                                          with readAll = 3:  written by writeToFile(track, path) with default arguments
+  csvdir <geo> <idE> <idN> <idU> <idT> <sep> <h> <hdrR> <pfmt> <rfmt> <tracks> <srid>    tracks: `<rows>|<rows>…` (`_` = no row)
+       writeToCsv(collection, dir, format) then readFromCsv(dir, …) with the files listed in the order written
+                                        → W:<hex>|<hex>… R:ok <rows>|<rows>… (or werr:/err:)
+  gpxc <geo> <rfmt> <names> <tracks>    writeToGpx(collection, file): names `<hex>,…`, tracks `<rows>|<rows>…` → as `gpx`
        read rows: `xm/xd,ym/yd,zm/zd,Y,M,D,h,m,s,ms;…`
        names `<hex>,…`; values `v,…;…` per observation, v: `m/d` | `nan` | `inf` | `-inf` | `S<hex>`
   net  <sep> <h> <hdrR> <d> <posDir> <edges>     edges: `id,src,tgt,orient,x:y|x:y…;…` (ids in hex)
@@ -122,6 +127,7 @@ def handleCsv (geo ie iN iu it sep h hr pf rf naf rows srid names ra : String) :
         if ie < -1 ∨ iN < -1 ∨ iu < -1 ∨ it < -1 then "bad-request" else
         let f : CsvFmt := ⟨ie, iN, iu, it, sep⟩
         match (if ra == "2" then writeToCsv f (geo == 1) (tokenize pf) h (rws.map (fun x => x.1)) srid
+                 else if ra == "3" then writeToFileDefault (geo == 1) (tokenize pf) (rws.map (fun x => x.1)) srid
                  else writeToFile f (geo == 1) (tokenize pf) h naf rws srid names) with
         | .error e => s!"werr:{e} R:none"
         | .ok text =>
@@ -138,8 +144,39 @@ def handleCsv (geo ie iN iu it sep h hr pf rf naf rows srid names ra : String) :
     | _, _, _, _, _ => "bad-request"
   | _, _, _, _, _, _, _, _ => "bad-request"
 
+def trackOf? (s : String) : Option (List Row) :=
+  if s == "_" then some [] else ((splitTok s ';').mapM (rowOf? 0)).map (fun l => l.map (fun x => x.1))
+
+def handleCsvDir (geo ie iN iu it sep h hr pf rf tracks srid : String) : String :=
+  match geo.toNat?, ie.toInt?, iN.toInt?, iu.toInt?, it.toInt?, sepOf? sep, h.toNat?, hr.toNat? with
+  | some geo, some ie, some iN, some iu, some it, some sep, some h, some hr =>
+    match unhex? pf, unhex? rf, unhex? srid, (splitTok tracks '|').mapM trackOf? with
+    | some pf, some rf, some srid, some trks =>
+      if ie < -1 ∨ iN < -1 ∨ iu < -1 ∨ it < -1 then "bad-request" else
+      let f : CsvFmt := ⟨ie, iN, iu, it, sep⟩
+      match writeToCsvColl f (geo == 1) (tokenize pf) h trks srid with
+      | .error e => s!"werr:{e} R:none"
+      | .ok texts =>
+        let r := match readCsvDir f (tokenize rf) hr texts with
+          | .ok ts => "ok " ++ joinWith "|" (ts.map (fun (t : List RRow) => if t.isEmpty then "_" else joinWith ";" (t.map showRRow)))
+          | .error e => s!"err:{e}"
+        s!"W:{joinWith "|" (texts.map toHex)} R:{r}"
+    | _, _, _, _ => "bad-request"
+  | _, _, _, _, _, _, _, _ => "bad-request"
+
 def handle (cmd : String) (args : List String) : String :=
   match cmd, args with
+  | "csvdir", [geo, ie, iN, iu, it, sep, h, hr, pf, rf, tracks, srid] => handleCsvDir geo ie iN iu it sep h hr pf rf tracks srid
+  | "gpxc", [geo, rf, names, tracks] =>
+    match geo.toNat?, unhex? rf, (splitTok names ',').mapM unhex?, (splitTok tracks '|').mapM trackOf? with
+    | some geo, some rf, some names, some trks =>
+      if names.length ≠ trks.length then "bad-request" else
+      let text := gpxBodyColl (names.zip (trks.map (fun (t : List Row) => t.map (fun r => (⟨r.x, r.y, r.z, r.t⟩ : GRow)))))
+      let r := match readGpx (tokenize rf) (geo == 1) text with
+        | .ok ts => "ok " ++ joinWith "|" (ts.map (fun (t : List RRow) => if t.isEmpty then "_" else joinWith ";" (t.map showRRow)))
+        | .error e => s!"err:{e}"
+      s!"W:{toHex text} R:{r}"
+    | _, _, _, _ => "bad-request"
   | "fix", [w, d, n] =>
     match w.toNat?, d.toNat?, snum? n with
     | some w, some d, some n =>
